@@ -978,6 +978,10 @@ SET_OF_decode_uper(const asn_codec_ctx_t *opt_codec_ctx,
 		for(i = 0; i < nelems; i++) {
 			void *ptr = 0;
 			size_t moved_before = pd->moved;
+			if(!elm->type->op->uper_decoder) {
+				/* PER is not defined for the element's type */
+				ASN__DECODE_FAILED;
+			}
 			ASN_DEBUG("SET OF %s decoding", elm->type->name);
 			rv = elm->type->op->uper_decoder(opt_codec_ctx, elm->type,
 				elm->encoding_constraints.per_constraints, &ptr, pd);
